@@ -3,7 +3,7 @@
    through the child store and through a cascade), changed in a system context with its flag intact,
    and an ordinary entity behaving exactly as without the constraint. *)
 From Coq Require Import List NArith Bool.
-From Storage Require Import Base.Bytes Store.Model Store.SystemProofs Store.SystemStrip.
+From Storage Require Import Base.Bytes Store.Model Store.SystemProofs Store.SystemStrip Store.SystemMixed.
 Import ListNotations.
 Open Scope N_scope.
 
@@ -164,3 +164,36 @@ Example idx_strip_wf : wf_strip_b idx_schema = true.
 Proof. vm_compute. reflexivity. Qed.
 Example noflag_instance : NoFlag st1 (root_of casc_schema n_bx) [51].
 Proof. intros e0 H. vm_compute in H. inversion H; subst. vm_compute. discriminate. Qed.
+
+(* ---- mixed transactions (Store/SystemMixed.v) on st1 (system b1 = [50], ordinary b2 = [51]) *)
+(* an update through a DERIVED system context succeeds, the next update of the same system entity through the base
+   (ordinary) context is refused and rolls the transaction back *)
+Example mixed_reuse_refused :
+  run_mtx casc_schema 8 st1 (mkMtx [] [mkMop true false (up_b n_b [50] [124]); mkMop false false (up_b n_b [50] [125])] false)
+  = ([None; Some EOther], false, st1, []).
+Proof. vm_compute. reflexivity. Qed.
+(* the caller swallows the refusal, updates the ordinary entity and commits: the system entity is as before *)
+Example mixed_swallow_commits :
+  match run_mtx casc_schema 8 st1 (mkMtx [] [mkMop false true (up_b n_bx [50] [124]); mkMop false false (up_b n_b [51] [125])] false) with
+  | (rs, committed, st', _) => rs = [Some EOther; None] /\ committed = true /\
+    get_field casc_schema st' n_b [50] n_name = get_field casc_schema st1 n_b [50] n_name /\
+    get_field casc_schema st' n_b [50] isSystemF = FBool true /\ get_field casc_schema st' n_b [51] n_name = FStr [125]
+  end.
+Proof. vm_compute. repeat split; reflexivity. Qed.
+(* the hypotheses of refused_op_no_write / mixed_system_requires_system_ctx are met, with and without swallowing *)
+Example mixed_hyps :
+  sys_target casc_schema n_b st1 (up_b n_bx [50] [124]) /\
+  swallows casc_schema st1 (mkMop false true (up_b n_bx [50] [124])) = true /\
+  swallows casc_schema st1 (mkMop false false (up_b n_bx [50] [124])) = false /\
+  swallows casc_schema st1 (mkMop false true (ODelete n_b [50])) = false /\
+  swallows casc_schema st1 (mkMop false true (up_b n_b [51] [124])) = false.
+Proof. vm_compute. repeat split; reflexivity. Qed.
+(* the swallow flag does not hide other failures: a refused delete still aborts *)
+Example mixed_swallow_only_updates :
+  run_mtx casc_schema 8 st1 (mkMtx [] [mkMop false true (ODelete n_b [50]); mkMop false false (up_b n_b [51] [125])] false)
+  = ([Some EOther], false, st1, []).
+Proof. vm_compute. reflexivity. Qed.
+Example alive_mops_instance :
+  alive_mops casc_schema n_b 8 [] [50] (st1, [])
+    [mkMop true false (up_b n_b [50] [124]); mkMop false true (up_b n_b [50] [125]); mkMop false false (ODelete n_b [51])].
+Proof. vm_compute. repeat split; exact I. Qed.
